@@ -2,8 +2,13 @@
 from harness import family_check as F
 
 
+def with_minimal(rng, C):
+    C["_minimal"] = True
+    return C
+
+
 def run(ctx):
-    F.run_family_check(ctx, "C04", 120, 2000, mc=[("PipelineSM", "MC_PipelineSM_quick.cfg", "MC_PipelineSM.cfg")])
+    F.run_family_check(ctx, "C04", 120, 2000, config_hook=with_minimal, mc=[("PipelineSM", "MC_PipelineSM_quick.cfg", "MC_PipelineSM.cfg")])
 
 
 replay = F.replay
